@@ -244,7 +244,7 @@ def aliased_shared(desc):
 
 @st.composite
 def netlist_cases(draw, max_nodes, n_cycles):
-    desc = c03.under_top(draw(netlists(max_nodes=max_nodes, n_regs=(0, 4), hierarchy=3, max_w=64, div=True)))
+    desc = c03.under_top(draw(netlists(max_nodes=max_nodes, n_regs=(0, 4), n_mems=(0, 1), hierarchy=3, max_w=64, div=True)))
     excluded = 0
     for nd in desc['nodes']:
         if nd['op'] == 'Add' and nd['args'][0] == nd['args'][1]:
